@@ -116,6 +116,7 @@ pub fn c03_build(raw: &Raw, _tier: Tier, _sched: bool) -> Scenario {
     o.caps = &CAPS_SMALL;
     o.pols = &POLS_MOSTLY_BLOCK;
     o.runtime_add = true;
+    o.unsubs = true;
     gen_pipeline(raw, &o)
 }
 
@@ -173,6 +174,9 @@ pub fn c03_check(scn: &Scenario, h: &History) -> Outcome {
         if p.runs[s].iter().any(|r| r.notify == Tri::Unspecified && !r.notified.is_empty()) {
             out.class("unspecified-notified");
         }
+        if sd.subs.iter().any(|(_, iv)| iv.unsub_ret.is_some()) && whole.len() >= 2 {
+            out.class("another-subscriber-unsubscribed-mid-run");
+        }
         if whole.len() >= 2 && has_dispatch && has_keep && producers.len() >= 2 {
             out.nontrivial = true;
         }
@@ -182,7 +186,7 @@ pub fn c03_check(scn: &Scenario, h: &History) -> Outcome {
 
 pub static C03: Profile = Profile {
     id: "C03",
-    rule: "proptest scenarios: 1-4 whole-run direct subscribers registered in the prelude (+ subscribers added mid-run), 1-3 producers, per-action Dispatch/Keep answers (uniform and mixed chains), before_dispatch/before_reduce verdicts, capacity 1-4. Oracle: reference model of the notify decision per action (Yes/No/Unspecified) vs the observed callback stream (action id AND state value), equal streams and registration order across subscribers. Non-trivial = >= 2 whole-run subscribers, a pipeline containing both a notifying and a Keep action, and >= 2 producers; distinct by scenario hash.",
+    rule: "proptest scenarios: 1-4 direct subscribers registered in the prelude (+ subscribers added mid-run, some unsubscribed mid-run by client threads; the ones never unsubscribed are the whole-run subscribers), 1-3 producers, per-action Dispatch/Keep answers (uniform and mixed chains), before_dispatch/before_reduce verdicts, capacity 1-4. Oracle: reference model of the notify decision per action (Yes/No/Unspecified) vs the observed callback stream (action id AND state value), equal streams and registration order across subscribers. Non-trivial = >= 2 whole-run subscribers, a pipeline containing both a notifying and a Keep action, and >= 2 producers; distinct by scenario hash.",
     raw: raw3,
     build: c03_build,
     check: c03_check,
